@@ -252,6 +252,9 @@ class Evaluator:
                 else:
                     raise Unknown('assignment target')
             return
+        if isinstance(st, ast.AugAssign) and isinstance(st.target, ast.Name):
+            env[st.target.id] = self.ev(ast.BinOp(left=ast.Name(id=st.target.id, ctx=ast.Load()), op=st.op, right=st.value), env)
+            return
         if isinstance(st, ast.If):
             if truth(self.ev(st.test, env)):
                 self.exec_block(st.body, env)
@@ -360,6 +363,8 @@ class Evaluator:
                                                   'self.EmptyCell': 'EmptyCell', 'self.__class__': 'EmptyCell'}.get(txt, txt)))
             v = self.ev(base, env)
             if v.kind in ('date', 'datetime') and node.attr in ('year', 'month', 'day'):
+                if isinstance(v.val, tuple) and v.val and v.val[0] == 'ymd':
+                    return const_av(v.val[1 + ('year', 'month', 'day').index(node.attr)])
                 return AV('int', sign='pos', origin=v.origin)
             raise Unknown(f'attribute {node.attr} of {v!r}')
         if isinstance(node, ast.BinOp):
@@ -367,6 +372,9 @@ class Evaluator:
             if a.val is not None and b.val is not None and isinstance(a.val, (int, float)) and isinstance(b.val, (int, float)):
                 try:
                     r = {ast.Add: a.val + b.val, ast.Sub: a.val - b.val, ast.Mult: a.val * b.val}.get(type(node.op))
+                    if r is None and isinstance(node.op, (ast.FloorDiv, ast.Mod)) and isinstance(a.val, int) and \
+                            isinstance(b.val, int) and b.val != 0:
+                        r = a.val // b.val if isinstance(node.op, ast.FloorDiv) else a.val % b.val
                     if r is not None:
                         return const_av(r)
                 except Exception:
@@ -540,6 +548,10 @@ class Evaluator:
             a = AV('int', sign='zero', val=0, origin=a.origin)
         if b.kind == 'blank':
             b = AV('int', sign='zero', val=0, origin=b.origin)
+        if a.kind in ('date', 'datetime') and a.kind == b.kind and isinstance(a.val, tuple) and isinstance(b.val, tuple) and \
+                a.val[:1] == ('ymd',) and b.val[:1] == ('ymd',):
+            x, y = a.val[1:], b.val[1:]
+            return {ast.Lt: x < y, ast.LtE: x <= y, ast.Gt: x > y, ast.GtE: x >= y}[type(op)]
         if a.kind in ('int', 'float', 'bool') and b.kind in ('int', 'float', 'bool'):
             if a.val is not None and b.val is not None:
                 x, y = a.val, b.val
